@@ -72,6 +72,10 @@ int ed_upk(ed_t r, const ed_t p) {
 
 		if (fp_get_bit(u, 0) != fp_get_bit(r->x, 0)) {
 			fp_neg(u, u);
+			/* Zero has no negative: the requested sign does not exist. */
+			if (fp_is_zero(u)) {
+				result = 0;
+			}
 		}
 		fp_copy(r->x, u);
 
